@@ -86,6 +86,7 @@ def standin_conversions(tier, seed):
         [("tau_mean", (1,)), ("xi", (1,))],
         [("tau_mean", (2,)), ("xi_std", ())],
         [("x_1", (1,)), ("xi", (1,))],
+        [("tau", (1,)), ("sources", (12,))],      # more than ten components: sources_10, sources_11 must not be read before sources_2
     ]
     tmp = tempfile.mkdtemp(prefix="c16_")
     try:
@@ -157,7 +158,7 @@ def standin_conversions(tier, seed):
     return dict(evaluations=evals, distinct_nontrivial=len(distinct),
                 rule="one evaluation = one conversion round trip of a container (identifiers x naming x shapes); distinct = (ids, naming)",
                 samples=samples, violations=list(uniq.values())[:60],
-                bound=dict(space="6 identifier sets x 9 namings/shapes x 6 value types x 4 conversion paths + 7 invalid additions", exhaustive=True))
+                bound=dict(space="6 identifier sets x 10 namings/shapes x 6 value types x 4 conversion paths + 7 invalid additions", exhaustive=True))
 
 
 STANDINS = [standin_conversions]
